@@ -577,8 +577,13 @@ class DirectionalVariogram(Variogram):
                              'model name, or it has to be the search area '
                              'itself')
 
-        # reset the groups as the directional model changed
+        # reset everything that is derived from the direction mask
+        self._direction_mask_cache = None
         self._groups = None
+        if getattr(self, '_bin_func_name', None) != 'custom_bin_edges':
+            self._bins = None
+        self._bin_count = None
+        self.cof, self.cov = None, None
 
     @property
     def bins(self):
